@@ -146,6 +146,8 @@ class Kind:
             return self.of(t.x)
         if o == "store":
             return jk(self.of(t.obj), self.of(t.val))
+        if o == "grow":
+            return jk(self.of(t.obj), self.of(t.val))
         if o == "comp":
             return self.of(t.elt)
         if o == "call":
